@@ -22,8 +22,16 @@ std::string describe_cb_data(void* data) {
     return "cell" + std::to_string((p - b) / sizeof(int));
   return "foreign";
 }
-bool cbA(void* data) { sim::g.event("CALLBACK A " + describe_cb_data(data)); return true; }
-bool cbB(void* data) { sim::g.event("CALLBACK B " + describe_cb_data(data)); return true; }
+// What the callback answers ("false if the solver is not running", solver-base.h) is the solver party's business: the
+// scenario scripts it (script.cb_answers, e.g. "TFT", cycled over the invocations of a run; default: always true).
+int g_cb_calls = 0;
+bool cb_answer() {
+  std::string pat = g_script["cb_answers"].as_str();
+  int k = g_cb_calls++;
+  return pat.empty() ? true : pat[(size_t)k % pat.size()] != 'F';
+}
+bool cbA(void* data) { sim::g.event("CALLBACK A " + describe_cb_data(data)); return cb_answer(); }
+bool cbB(void* data) { sim::g.event("CALLBACK B " + describe_cb_data(data)); return cb_answer(); }
 
 std::unique_ptr<mp::BasicBackend> CreateSimBackend() {
   return std::unique_ptr<mp::BasicBackend>{new SimBackend()};
